@@ -291,3 +291,10 @@ for _k, _v in _MORE_NOTES.items():
     CHECKS[_k]['level_note'] += _v
 CHECKS['C20']['level_text'] += ' Linearizability of the store is decided on the data under every lock-granularity schedule of 2 threads x (2+1) operations (quick) / 3 threads x (2+1+1) (thorough).'
 CHECKS['C15']['level_text'] = CHECKS['C15']['level_text'].replace('the numerals are kept as tokens so the solver reasons about the integers, not digit strings', 'numerals kept as tokens of the integers in one harness and as digit runs in another')
+CHECKS['C20']['technique'] = ('symbolic execution of the go/ssa form of the real store methods and handlers yields lock/access traces; z3 decides deadlock and race freedom over a '
+                              'symbolic schedule of those traces (bounded interleaving model); linearizability by symbolic execution of the real methods as threads under every '
+                              'lock-granularity schedule, each history checked by z3 against the sequential map; schedules reported, stress-replayed natively')
+CHECKS['C15']['technique'] = ('bounded symbolic execution of the go/ssa form of Duration.MarshalText / UnmarshalText; the round-trip identity decided by z3 for every int64 value at once '
+                              '(linear integer arithmetic over numeral tokens and over digit runs); sat models replayed against the native build')
+CHECKS['C09']['technique'] = ('bounded symbolic execution of the go/ssa form of every encoded message-consuming entry point with all optional elements absent-able; z3 decides feasibility of every '
+                              'path that ends in a Go panic (a feasible one is the violation) and the inflate bound as an inductive step and as a bounded black-box run; replayed natively')
